@@ -198,8 +198,46 @@ func extractAssign(fd *ast.FuncDecl, f *facts) {
 		f.miss("assign: exec of the multi-define branch")
 	} else {
 		f.set("multiDefineTemps", twoPhaseDefine(mdExec))
-		f.set("multiDefineRedeclAssigns", strings.Contains(text(mdExec), "redeclared"))
-		if !containsAssign(mdExec, "data[j] = reflect.New(", ".Elem()") {
+		// a variable that is only redeclared keeps its cell: the re-allocation of the destination is guarded by
+		// `if !n.child[i].redeclared` (since 8bd8040); which variables carry the mark is decided in cfg.go (extractCfg)
+		guarded, unguarded := false, false
+		ast.Inspect(mdExec, func(x ast.Node) bool {
+			switch y := x.(type) {
+			case *ast.IfStmt:
+				if text(y.Cond) == "!n.child[i].redeclared" && y.Else == nil && len(y.Body.List) == 1 &&
+					strings.HasPrefix(text(y.Body.List[0]), "data[j] = reflect.New(") {
+					guarded = true
+					return false
+				}
+			case *ast.AssignStmt:
+				if strings.HasPrefix(text(y), "data[j] = reflect.New(") {
+					unguarded = true
+				}
+			}
+			return true
+		})
+		f.set("multiDefineRedeclAssigns", guarded && !unguarded)
+		if strings.Contains(text(mdExec), "redeclared") && !guarded {
+			f.miss("assign: multi-define mentions `redeclared` outside the shape `if !n.child[i].redeclared { data[j] = reflect.New(…).Elem() }`")
+		}
+		// … and then every source is copied before the first store: `redeclare` is the disjunction of the marks of the
+		// left-hand sides, and the first loop replaces t[i] by a copy when it is set
+		copies := false
+		if ls := rangeLoops(mdExec); len(ls) == 2 {
+			ast.Inspect(ls[0].Body, func(x ast.Node) bool {
+				if is, ok := x.(*ast.IfStmt); ok && text(is.Cond) == "redeclare" && contains(is.Body, "v.Set(t[i])") && contains(is.Body, "t[i] = v") &&
+					containsAssign(is.Body, "v := reflect.New(", ".Elem()") {
+					copies = true
+				}
+				return true
+			})
+		}
+		redeclareAll := contains(multiDef.Body, "redeclare = redeclare || c.redeclared") && contains(multiDef.Body, "redeclare := false")
+		f.set("multiDefineRedeclCopies", copies && redeclareAll)
+		if guarded && !(copies && redeclareAll) {
+			f.miss("assign: multi-define sets redeclared variables in place without the `if redeclare { … copy … }` shape")
+		}
+		if !guarded && !unguarded {
 			f.set("defineFresh", false)
 		}
 	}
@@ -285,7 +323,256 @@ func extractCfg(file *ast.File, f *facts) (clauseHash string) {
 		return strings.Contains(t, "nleft") || strings.Contains(t, "nright") || strings.Contains(t, "len(n.child)")
 	}
 	f.set("shortcutGuardsSingle", guardBefore || (guards(callArm) && guards(litArm)))
+	// which destinations are marked `redeclared` (8bd8040, narrowed by 6ebc898): a named variable of a short variable
+	// declaration found in its own, non-global scope
+	marks, goodGuard := 0, 0
+	ast.Inspect(clause, func(x ast.Node) bool {
+		direct := func(is *ast.IfStmt, want string) bool {
+			for _, st := range is.Body.List {
+				if text(st) == want {
+					return true
+				}
+			}
+			return false
+		}
+		if is, ok := x.(*ast.IfStmt); ok && direct(is, "dest.redeclared = true") {
+			marks++
+			if text(is.Cond) == `!sc.global && n.kind == defineStmt && dest.ident != "_"` && contains(is.Body, "dest.typ = sym.typ") {
+				// the enclosing test: the symbol exists in the current scope
+				goodGuard++
+			}
+			return false
+		}
+		return true
+	})
+	inScope := contains(clause, "sc.global || sc.isRedeclared(dest)")
+	if strings.Count(text(clause), "redeclared = true") != marks {
+		marks = -1 // a mark set somewhere else
+	}
+	switch {
+	case marks == 0:
+		f.set("multiDefineRedeclAssigns", false)
+	case marks == 1 && goodGuard == 1 && inScope:
+		// keeps the value decided from assign()
+	default:
+		f.set("multiDefineRedeclAssigns", false)
+		f.miss("cfg.go: `dest.redeclared = true` outside the shape `if !sc.global && n.kind == defineStmt && dest.ident != \"_\" { … }` under `sc.global || sc.isRedeclared(dest)`")
+	}
 	return
+}
+
+// extractLit: where arrayLit / mapLit store the literal (genValueLit, since 1436613).
+func extractLit(run *ast.File, f *facts) {
+	al, ml := common.FindFunc(run, "", "arrayLit"), common.FindFunc(run, "", "mapLit")
+	if al == nil || ml == nil {
+		f.miss("func arrayLit / mapLit")
+		return
+	}
+	f.set("arrayLitSets", contains(al, "value(f).Set(a)") && contains(ml, "value(f).Set(m)"))
+	old := contains(al, "value := valueGenerator(n, n.findex)") && contains(ml, "value := valueGenerator(n, n.findex)")
+	neu := contains(al, "value := genValueLit(n)") && contains(ml, "value := genValueLit(n)")
+	switch {
+	case old:
+		f.set("arrayLitFresh", false)
+		f.set("arrayLitAssignInPlace", false)
+	case neu:
+		gl := common.FindFunc(run, "", "genValueLit")
+		if gl == nil {
+			f.miss("func genValueLit")
+			return
+		}
+		fresh, inPlace, other := false, false, 0
+		for _, st := range gl.Body.List {
+			switch y := st.(type) {
+			case *ast.IfStmt:
+				if text(y.Cond) == "n.anc.kind == assignStmt" && y.Else == nil && text(y.Body) == "{ return valueGenerator(n, n.findex) }" {
+					inPlace = true
+				} else {
+					other++
+				}
+			case *ast.ReturnStmt:
+				if len(y.Results) == 1 {
+					if fl, ok := y.Results[0].(*ast.FuncLit); ok && containsAssign(fl, "data[i] = reflect.New(data[i].Type())", ".Elem()") &&
+						contains(fl, "return data[i]") && contains(fl, "data := getFrame(f, l).data") {
+						fresh = true
+					}
+				}
+			case *ast.AssignStmt:
+				if text(y) != "i, l := n.findex, n.level" {
+					other++
+				}
+			default:
+				other++
+			}
+		}
+		f.set("arrayLitFresh", fresh)
+		f.set("arrayLitAssignInPlace", fresh && inPlace)
+		if !fresh || other != 0 {
+			f.miss("genValueLit: `if n.anc.kind == assignStmt { return valueGenerator(n, n.findex) }` then a closure that re-allocates data[i]")
+		}
+	default:
+		f.miss("arrayLit / mapLit: `value := genValueLit(n)` or `value := valueGenerator(n, n.findex)`")
+	}
+}
+
+// extractDefineX: the destinations of the comma-ok map index (genValueDefine, since 5a404d3).
+func extractDefineX(run *ast.File, f *facts) {
+	fd := common.FindFunc(run, "", "getIndexMap2")
+	if fd == nil {
+		return // reported by the caller
+	}
+	old := contains(fd, "dest := genValue(n.anc.child[0])") && contains(fd, "value2 := genValue(n.anc.child[1])")
+	neu := contains(fd, "dest := genValueDefine(n.anc.child[0])") && contains(fd, "value2 := genValueDefine(n.anc.child[1])")
+	switch {
+	case old:
+		f.set("lookup2DefineFresh", false)
+		f.set("lookup2RedeclInPlace", true) // every destination is the existing cell
+	case neu:
+		gd := common.FindFunc(run, "", "genValueDefine")
+		if gd == nil {
+			f.miss("func genValueDefine")
+			return
+		}
+		fresh, guard := false, ""
+		for _, st := range gd.Body.List {
+			switch y := st.(type) {
+			case *ast.IfStmt:
+				if text(y.Body) == "{ return genValue(n) }" && y.Else == nil {
+					guard = text(y.Cond)
+				}
+			case *ast.ReturnStmt:
+				if len(y.Results) == 1 {
+					if fl, ok := y.Results[0].(*ast.FuncLit); ok && containsAssign(fl, "data[i] = reflect.New(data[i].Type())", ".Elem()") &&
+						contains(fl, "return data[i]") {
+						fresh = true
+					}
+				}
+			}
+		}
+		f.set("lookup2DefineFresh", fresh)
+		switch guard {
+		case `n.anc.kind != defineXStmt || n.redeclared || n.ident == "_"`:
+			f.set("lookup2RedeclInPlace", true)
+		case `n.anc.kind != defineXStmt || n.ident == "_"`:
+			f.set("lookup2RedeclInPlace", false)
+		default:
+			f.set("lookup2RedeclInPlace", false)
+			f.miss("genValueDefine: guard `n.anc.kind != defineXStmt || n.redeclared || n.ident == \"_\"`")
+		}
+		if !fresh {
+			f.miss("genValueDefine: closure that re-allocates data[i]")
+		}
+		// every destination function is called at most once per execution (a second call would allocate again)
+		n := 0
+		ast.Inspect(fd, func(x ast.Node) bool {
+			if fl, ok := x.(*ast.FuncLit); ok {
+				t := text(fl)
+				if strings.Count(t, "value2(f)") > 1 {
+					n++
+				}
+				// dest(f) appears once in each branch of the if / else
+				if strings.Count(t, "dest(f)") > 2 {
+					n++
+				}
+				return false
+			}
+			return true
+		})
+		if n != 0 {
+			f.miss("getIndexMap2: a destination generator is called more than once in one execution")
+		}
+	default:
+		f.miss("getIndexMap2: destinations through genValue or genValueDefine")
+	}
+}
+
+// extractDeref: does `*p` panic at the dereference when p is nil (since 93fb945).
+func extractDeref(run *ast.File, f *facts) {
+	fd := common.FindFunc(run, "", "deref")
+	if fd == nil {
+		f.miss("func deref")
+		return
+	}
+	// the shape since 93fb945: a local `value` closure does Elem() and checks validity; the exec closures only call it
+	var valueLit *ast.FuncLit
+	direct := 0
+	for _, st := range fd.Body.List {
+		if a, ok := st.(*ast.AssignStmt); ok && len(a.Lhs) == 1 && text(a.Lhs[0]) == "value" {
+			if fl, ok := a.Rhs[0].(*ast.FuncLit); ok {
+				valueLit = fl
+			}
+		}
+	}
+	ast.Inspect(fd, func(x ast.Node) bool {
+		if fl, ok := x.(*ast.FuncLit); ok && fl != valueLit {
+			if strings.Contains(text(fl), ".Elem()") {
+				direct++
+			}
+			return false
+		}
+		return true
+	})
+	switch {
+	case valueLit == nil && direct == 2 && contains(fd, "value := genValue(n.child[0])"):
+		f.set("derefNilPanics", false) // `value(f).Elem()` used as is: the zero Value of a nil pointer travels on
+	case valueLit != nil && direct == 0:
+		ok := false
+		ast.Inspect(valueLit, func(x ast.Node) bool {
+			if is, isIf := x.(*ast.IfStmt); isIf && text(is.Cond) == "!r.IsValid()" && len(is.Body.List) >= 1 &&
+				(contains(is.Body, "_ = *nilPtr") || strings.Contains(text(is.Body), "panic(")) {
+				ok = true
+			}
+			return true
+		})
+		f.set("derefNilPanics", ok && contains(valueLit, "r := v(f).Elem()") && contains(valueLit, "return r"))
+		if !ok {
+			f.miss("deref: `r := v(f).Elem(); if !r.IsValid() { _ = *nilPtr }; return r`")
+		}
+	default:
+		f.miss("deref: Elem() either in both exec closures or in one checked `value` closure")
+	}
+}
+
+// extractAppend: how `append(s, a, b, …)` with several operands stores them.
+func extractAppend(run *ast.File, f *facts) {
+	fd := common.FindFunc(run, "", "_append")
+	if fd == nil {
+		f.miss("func _append")
+		return
+	}
+	var multi *ast.CaseClause
+	ast.Inspect(fd, func(x ast.Node) bool {
+		if cc, ok := x.(*ast.CaseClause); ok && len(cc.List) == 1 && text(cc.List[0]) == "l > 3" {
+			multi = cc
+		}
+		return true
+	})
+	if multi == nil {
+		f.miss("_append: case l > 3")
+		return
+	}
+	var ex *ast.FuncLit
+	for _, st := range multi.Body {
+		if fl := execLit(st); fl != nil {
+			ex = fl
+		}
+	}
+	if ex == nil {
+		f.miss("_append: exec of the several-operands case")
+		return
+	}
+	slots := contains(ex, "sl[i] = v(f)") && contains(ex, "dest(f).Set(reflect.Append(value(f), sl...))")
+	copied := contains(ex, "s := value(f)") && contains(ex, "sl := reflect.MakeSlice(s.Type(), l, l)") &&
+		contains(ex, "sl.Index(i).Set(v(f))") && contains(ex, "dest(f).Set(reflect.AppendSlice(s, sl))") && !contains(ex, "sl[i] = v(f)")
+	switch {
+	case slots && !copied:
+		f.set("appendArgsAreSlots", true)
+	case copied && !slots:
+		f.set("appendArgsAreSlots", false)
+	default:
+		f.set("appendArgsAreSlots", true)
+		f.miss("_append: operands either passed as slots to reflect.Append or copied into a fresh slice for reflect.AppendSlice")
+	}
 }
 
 func main() {
@@ -303,9 +590,10 @@ func main() {
 			return "", err
 		}
 		f := &facts{vals: map[string]bool{}}
-		for _, n := range []string{"assignCopies", "multiTemps", "multiDefineTemps", "multiDefineRedeclAssigns", "defineFresh",
+		for _, n := range []string{"assignCopies", "multiTemps", "multiDefineTemps", "multiDefineRedeclAssigns", "multiDefineRedeclCopies", "defineFresh",
 			"callCopiesArgs", "rangeSnapshotsArray", "closureClonesFrame", "callShortcut", "litShortcut", "shortcutGuardsSingle",
-			"structLitSetsSlot", "structLitAssignSets", "arrayLitSets", "lookup2OnlyIfValid", "appendArgsAreSlots"} {
+			"structLitSetsSlot", "structLitAssignSets", "arrayLitSets", "arrayLitFresh", "arrayLitAssignInPlace", "lookup2OnlyIfValid",
+			"lookup2DefineFresh", "lookup2RedeclInPlace", "appendArgsAreSlots", "derefNilPanics"} {
 			f.set(n, false)
 		}
 		extractAssign(common.FindFunc(run, "", "assign"), f)
@@ -339,7 +627,10 @@ func main() {
 		}
 
 		if fd := common.FindFunc(run, "", "getFunc"); fd != nil {
-			f.set("closureClonesFrame", contains(fd, "fr := f.clone()") && contains(fd, "fr2 := newFrame(fr, len(n.types), fr.runid())"))
+			// the frame of each call hangs below the CLONE taken when the literal was evaluated (since 4a41b28 through
+			// newCallFrame, which only changes the run id / cancellation channel of the new frame)
+			f.set("closureClonesFrame", contains(fd, "fr := f.clone()") &&
+				(contains(fd, "fr2 := newFrame(fr, len(n.types), fr.runid())") || contains(fd, "fr2 := newCallFrame(fr, len(n.types))")))
 		} else {
 			f.miss("func getFunc")
 		}
@@ -371,12 +662,7 @@ func main() {
 			f.miss("func doComposite")
 		}
 
-		al, ml := common.FindFunc(run, "", "arrayLit"), common.FindFunc(run, "", "mapLit")
-		if al != nil && ml != nil {
-			f.set("arrayLitSets", contains(al, "value(f).Set(a)") && contains(ml, "value(f).Set(m)"))
-		} else {
-			f.miss("func arrayLit / mapLit")
-		}
+		extractLit(run, f)
 
 		if fd := common.FindFunc(run, "", "getIndexMap2"); fd != nil {
 			n, only, zero := 0, 0, 0
@@ -397,14 +683,31 @@ func main() {
 			if n != 2 || (only != 2 && zero != 2) {
 				f.miss("getIndexMap2: two guarded stores (both without else, or both storing the zero value otherwise)")
 			}
+			extractDefineX(run, f)
 		} else {
 			f.miss("func getIndexMap2")
 		}
 
-		if fd := common.FindFunc(run, "", "_append"); fd != nil {
-			f.set("appendArgsAreSlots", contains(fd, "sl[i] = v(f)") && contains(fd, "dest(f).Set(reflect.Append(value(f), sl...))"))
-		} else {
-			f.miss("func _append")
+		extractAppend(run, f)
+		extractDeref(run, f)
+
+		// the frame slot reserved for the ranged value when ranging over a pointer to an array (da35a0b, F04-7): a matter
+		// of frame layout that the model has no fact for — anchored by the fingerprint of the clause
+		rangePtrHash := "unrecognised: rangeStmt, case ptrT"
+		ast.Inspect(cfg, func(x ast.Node) bool {
+			if cc, ok := x.(*ast.CaseClause); ok && len(cc.List) == 1 && text(cc.List[0]) == "ptrT" &&
+				contains(cc, `ktyp = sc.getType("int")`) && contains(cc, "vtyp = o.typ.val") {
+				rangePtrHash = hash(cc)
+				if len(cc.Body) == 0 || text(cc.Body[0]) != `sc.add(sc.getType("int"))` {
+					f.miss("cfg.go: rangeStmt, case ptrT does not start by reserving the slot of the ranged value")
+				}
+			}
+			return true
+		})
+		// `&p[i]` with p a pointer to an array (0780d8c, F04-9)
+		addrHash := "unrecognised: addressExpr"
+		if fsetT, tc, err := common.ParseFile(repo, "interp/typecheck.go"); err == nil {
+			addrHash = common.FuncHash(fsetT, tc, "typecheck", "addressExpr")
 		}
 
 		var b strings.Builder
@@ -421,7 +724,7 @@ func main() {
 		fmt.Fprintf(&b, "/-- shapes the extractor looked for and did not find -/\ndef unrecognised : List String := %s\n", common.LeanStrList(f.unrecognised))
 		runNames := [][2]string{{"", "assign"}, {"", "assignFromCall"}, {"", "addr"}, {"", "deref"}, {"", "getIndexArray"},
 			{"", "getIndexMap"}, {"", "getIndexMap2"}, {"", "getFunc"}, {"", "getIndexSeq"}, {"", "getPtrIndexSeq"}, {"", "arrayLit"},
-			{"", "mapLit"}, {"", "doComposite"}, {"", "_range"}, {"", "loopVarKey"}, {"", "loopVarVal"}, {"", "_append"}, {"", "appendSlice"}, {"", "_copy"},
+			{"", "mapLit"}, {"", "genValueLit"}, {"", "genValueDefine"}, {"", "doComposite"}, {"", "_range"}, {"", "loopVarKey"}, {"", "loopVarVal"}, {"", "_append"}, {"", "appendSlice"}, {"", "_copy"},
 			{"", "_delete"}, {"", "slice"}, {"", "slice0"}}
 		hr := common.HashTable(fsetR, run, runNames)
 		// of `call` only the closure that performs an ordinary (not deferred, not go) call is transcribed: the last
@@ -438,7 +741,9 @@ func main() {
 		b.WriteString("/-- fingerprints of the functions that Model/Share.lean transcribes -/\ndef sourceHashes : List (String × String) :=\n  ")
 		b.WriteString(strings.TrimSuffix(hr, "]") + ",\n   (" + common.LeanStr("call: exec of an ordinary call") + ", " + common.LeanStr(callHash) + "),\n   " +
 			strings.TrimPrefix(strings.TrimSuffix(hv, "]"), "[") + ",\n   (" +
-			common.LeanStr("cfg.go: case assignStmt, defineStmt") + ", " + common.LeanStr(clauseHash) + ")]\n")
+			common.LeanStr("cfg.go: case assignStmt, defineStmt") + ", " + common.LeanStr(clauseHash) + "),\n   (" +
+			common.LeanStr("cfg.go: rangeStmt, case ptrT") + ", " + common.LeanStr(rangePtrHash) + "),\n   (" +
+			common.LeanStr("typecheck.go: addressExpr") + ", " + common.LeanStr(addrHash) + ")]\n")
 		b.WriteString("end YaegiVerif.Generated.C04\n")
 		return b.String(), nil
 	})
